@@ -77,6 +77,8 @@ type txCase struct {
 	n     int
 	addr  string   // address form, "" = "--connect ipc://"
 	extra []string // extra options
+	fkind string   // what --file names, "" = a regular file written by the harness (see txfile.go)
+	fpath string   // fkind "proc": the path
 }
 
 func (c txCase) isFile() bool {
@@ -178,13 +180,15 @@ func runTx(c txCase) (res txResult) {
 	}
 
 	args := append([]string{c.pat.proto}, aargs...)
+	var stdin *os.File
 	if c.isFile() {
-		f := sockPath("file")
-		if err := os.WriteFile(f, c.data, 0o644); err != nil {
+		f, in, cleanup, err := prepareFile(c)
+		if err != nil {
 			res.herr = err.Error()
 			return
 		}
-		defer os.Remove(f)
+		defer cleanup()
+		stdin = in
 		switch c.src {
 		case "file-sep":
 			args = append(args, "--file", f)
@@ -262,7 +266,10 @@ func runTx(c txCase) (res txResult) {
 		}
 	}()
 
-	p, err := startMacat(args...)
+	p, err := startMacatIn(stdin, args...)
+	if stdin != nil {
+		_ = stdin.Close() // the child has its own copy
+	}
 	if err != nil {
 		res.herr = err.Error()
 	} else {
